@@ -238,17 +238,47 @@ def run(ctx):
                 ctx.check(a is not None and norm(a) == "eps", "R3", scf, c, d, c, f"{d}: get_error receives the driver's eps unchanged",
                           f"{d}: convergence test is given `{norm(a)}` instead of the requested threshold eps")
                 pa = [norm(x) for x in c.args[:3]]
-                ctx.check(pa == ["Pold", "P", "notconverged"], "R3", scf, c, d, c, f"{d}: get_error compares the previous and the new density of the active molecules",
-                          f"{d}: get_error called with {pa}")
+                # arg0: a local copy of the density made before the update (every definition/store of it is a copy of P); arg1: P; arg2: the mask the driver returns
+                prev = c.args[0]
+                prev_ok = isinstance(prev, ast.Name) and prev.id != "P"
+                if prev_ok:
+                    for st in ast.walk(f):
+                        if isinstance(st, ast.Assign):
+                            for t in st.targets:
+                                base = t.value if isinstance(t, ast.Subscript) else t
+                                if isinstance(base, ast.Name) and base.id == prev.id:
+                                    v = norm(st.value).replace(" ", "")
+                                    sl = norm(t.slice) if isinstance(t, ast.Subscript) else None
+                                    if not (v in ("P.clone()", "P+0.0", "torch.zeros_like(P)", "P.detach().clone()", "torch.clone(P)") or (sl is not None and v == f"P[{sl}]")):
+                                        prev_ok = False
+                rets = [r.value.elts[1] for r in ast.walk(f) if isinstance(r, ast.Return) and isinstance(r.value, ast.Tuple) and len(r.value.elts) >= 2 and scf.qualname_of(r) == d]
+                mask_names = {norm(x) for x in rets}
+                ctx.check(prev_ok and pa[1] == "P" and pa[2] in mask_names, "R3", scf, c, d, c, f"{d}: get_error compares a pre-update copy of the density with the new density of the active molecules",
+                          f"{d}: get_error called with {pa} (expected a copy of P taken before the update, P, and the returned convergence mask {sorted(mask_names)})")
         # the energy used in the test is the energy of the density just built
-        en = [st for st in ast.walk(f) if isinstance(st, ast.Assign) and norm(st.targets[0]) == "Eelec_new[notconverged]"]
-        ctx.check(bool(en) and all(norm(st.value).replace(" ", "") == "elec_energy(P[notconverged],F[notconverged],Hcore[notconverged])" for st in en), "R3", scf,
-                  en[0] if en else f, d, en[0] if en else "Eelec_new", f"{d}: tested energy is E[P_new, F(P_new)]", f"{d}: energy used in the convergence test changed")
+        e_pos = ge_params.index("Eelec_new") if "Eelec_new" in ge_params else 6
+        e_names = {norm(c.args[e_pos]) for c in calls_in(f) if callee_attr(c) == "get_error" and len(c.args) > e_pos}
+        en = [st for st in ast.walk(f) if isinstance(st, ast.Assign) and isinstance(st.targets[0], ast.Subscript) and norm(st.targets[0].value) in e_names]
+        def _e_ok(st):
+            mk = norm(st.targets[0].slice)
+            return norm(st.value).replace(" ", "") == f"elec_energy(P[{mk}],F[{mk}],Hcore[{mk}])".replace(" ", "")
+        ctx.check(bool(en) and all(_e_ok(st) for st in en), "R3", scf,
+                  en[0] if en else f, d, en[0] if en else "tested energy", f"{d}: tested energy is E[P_new, F(P_new)]", f"{d}: energy used in the convergence test changed")
     if n_calls < 5:
         raise AnalysisError("get_error call sites not found")
     f3 = scf.func("scf_forward3")
-    e3 = [st for st in ast.walk(f3) if isinstance(st, ast.Assign) and norm(st.targets[0]) == "err[notconverged]"]
-    ctx.check(bool(e3) and norm(e3[0].value).replace(" ", "") == "torch.abs(Eelec_new[notconverged]-Eelec[notconverged])", "R3", scf, e3[0] if e3 else f3,
+    # KSA: the quantity compared with eps is |E_new - E_old| of the active molecules, E_new being the elec_energy of this iteration
+    e_new = {st.targets[0].value.id for st in ast.walk(f3) if isinstance(st, ast.Assign) and isinstance(st.targets[0], ast.Subscript) and isinstance(st.targets[0].value, ast.Name)
+             and isinstance(st.value, ast.Call) and (call_name(st.value) or "") == "elec_energy"}
+    e3 = []
+    for st in ast.walk(f3):
+        if isinstance(st, ast.Assign) and isinstance(st.targets[0], ast.Subscript) and isinstance(st.value, ast.Call) and (call_name(st.value) or "") == "torch.abs" and st.value.args \
+                and isinstance(st.value.args[0], ast.BinOp) and isinstance(st.value.args[0].op, ast.Sub):
+            l, r = st.value.args[0].left, st.value.args[0].right
+            mk = norm(st.targets[0].slice)
+            if isinstance(l, ast.Subscript) and isinstance(r, ast.Subscript) and norm(l.slice) == mk == norm(r.slice) and norm(l.value) in e_new and norm(r.value) != norm(l.value):
+                e3.append(st)
+    ctx.check(bool(e3), "R3", scf, e3[0] if e3 else f3,
               "scf_forward3", e3[0] if e3 else "err", "KSA driver tests |dE| of the active molecules against eps", "KSA convergence error changed")
     # SCF.forward hands eps through
     sf = scf.func("SCF.forward")
